@@ -251,7 +251,50 @@ def tb9(facts, rep):
         rep.ok(rule, key, '%s:%s' % (b.file, b.line), 'Subst/Ins/Del/Match each behind their own test')
 
 
+def ef8(facts, rep):
+    from . import effects
+    rule = 'EF-8'
+    rep.rule(rule, 'lazy queries are functions of the stored columns only: the fields of LazyMatches that next() mutates '
+                   '(other than the traceback and the matcher\'s state store, which hold the searched columns) are not read '
+                   'by hit_at/path_at/path_at_reverse/alignment_at - otherwise the answer for an earlier end position '
+                   'depends on how far the search has advanced since')
+    eff = effects.Effects(facts)
+    n = 0
+    for mod in ('simple', 'long'):
+        nx = facts.one(r'^<pattern_matching::myers::%s::myers_impl::LazyMatches<.*> as std::iter::Iterator>::next$' % mod)
+        if nx is None:
+            rep.missing(rule, 'myers::%s::LazyMatches::next' % mod, 'not found')
+            continue
+        rep.analysed_body(nx)
+        written = {effects.clean(p)[0] for p in eff.param_writes(nx, 1) if effects.clean(p)}
+        cursor = written - {'traceback', 'myers'}
+        for nm in ('hit_at', 'path_at', 'path_at_reverse', 'alignment_at'):
+            b = facts.one(r'^pattern_matching::myers::%s::myers_impl::LazyMatches::<.*>::%s$' % (mod, nm))
+            key = 'myers::%s::LazyMatches::%s|independent-of-search-cursor' % (mod, nm)
+            if b is None:
+                rep.missing(rule, key, 'not found')
+                continue
+            n += 1
+            reads = set()
+            for fb in [b] + facts.closures_of(b.path):
+                rep.analysed_body(fb)
+                for bb in fb.reachable(0):
+                    for pl in eng_gd.place_mentions(fb, bb):
+                        sp = eng_gd.self_field_path(pl)
+                        if sp and fb is b:
+                            reads.add(sp[0])
+            bad = sorted(reads & cursor)
+            if bad:
+                rep.bad(rule, key, '%s:%s' % (b.file, b.line), 'the query reads self.%s, which next() changes at every text position: '
+                                                               'its answer for an already searched end depends on the current '
+                                                               'position of the search' % ', self.'.join(bad))
+            else:
+                rep.ok(rule, key, '%s:%s' % (b.file, b.line), 'reads %s; next() mutates cursor fields %s' % (sorted(reads), sorted(cursor)))
+    rep.floor(rule, 'lazy query methods', n, 8)
+
+
 def run(facts, rep, ctx):
+    ef8(facts, rep)
     gd2(facts, rep)
     ef3_gd3(facts, rep)
     ts5(facts, rep)
